@@ -32,6 +32,19 @@ CHECKS['C05'] = {
     'explanation': 'From<u16>/From<CoapOption>, TryFrom<usize>/From<ContentFormat>, ObserveOption pair, From<u8>/From<MessageClass>, Header::get_type/set_type verified against registry spec functions; one-to-one lemmas.',
 }
 
+T_CAP = 'R6/R7 capacity model (assumed std guarantees): Vec::with_capacity(n)/reserve(n) give capacity >= len+n and <= isize::MAX without changing contents; ptr::copy into spare capacity followed by set_len appends the copied bytes. The memory-safety condition of each unsafe block (source lengths, offsets, new length <= capacity, no uninitialised byte below the new length) is the PRECONDITION of the stub and is proved at each of the three call sites from the real argument expressions'
+T_EQ = 'derived PartialEq on MessageClass/RequestType/ResponseType is structural equality (PartialEqSpecImpl, derived bodies checked by Verus)'
+CHECKS['C04'] = {
+    'level': 'proof',
+    'units': ['enc'],
+    'kani': [],
+    'technique': 'contract-based deductive verification (Verus) of the real Packet::to_bytes_internal: exact size-limit iff, exact wire image, memory-safety preconditions of the unsafe copy blocks',
+    'level_text': 'Unbounded proof over all packets and all limits: the verbatim body of to_bytes_internal (both option loops with inductive invariants over the BTreeMap iteration) returns Ok exactly when the RFC 7252 wire length is within the limit, the output is exactly the wire image (hence has exactly that length), errors are InvalidPacketLength, over-long option values are refused, and every unsafe copy stays inside reserved capacity.',
+    'level_note': 'Trusted: Verus/Z3/vstd (incl. BTreeMap ascending iteration axioms); R1 LinkedList as VecDeque; the capacity model and the raw-copy stub (the unsafe blocks themselves are not executed by the verifier: their safety condition is the stub precondition); packets below 256 MiB per field; hand-built non-canonical codes such as Reserved(0) excluded (code_canonical).',
+    'trusted': [T_VERUS, T_R1, T_CAP, T_EQ, T_BE, T_ARITH, 'precondition: token and payload each <= 2^28 bytes; header code canonical (class_of_u8(u8_of_class(c)) == c)'],
+    'explanation': 'to_bytes_internal, to_bytes, to_bytes_with_limit, to_bytes_unlimited, HeaderRaw::serialize_into, Header::to_raw under contract enc_post (units/enc.py).',
+}
+
 HOOK_COMMITS = []
 
 NOT_APPLICABLE = [
